@@ -70,7 +70,8 @@ def check(run):
         parts = list(ex.map(lambda ch: run_driver(run, "chans", ch, timeout=600) if ch else [], chunks))
     evq = run_driver(run, "chans", plan, timeout=600)
     # the hand-over-at-the-deadline rounds keep every processor busy on purpose: run alone, after everything that relies on timers
-    solo = [dict(op="SendDeadlineRace", cap=0, fill=0, closed=False, limit=0, pending=0, rounds=(400 if q else 3000)) for _ in range(2)]
+    solo = [dict(op="SendDeadlineRace", cap=0, fill=0, closed=False, limit=0, pending=0, rounds=(200 if q else 2000)) for _ in range(2)]
+    solo += [dict(op="SendDeadlineRace", cap=0, fill=0, closed=False, limit=0, pending=0, fast=True, rounds=(6000 if q else 60000)) for _ in range(2)]
     evsolo = run_driver(run, "chans", solo, timeout=600)
     evs = evq + [e for p in parts for e in p] + evsolo
     plans = plan + [t for ch in chunks for t in ch] + solo
